@@ -42,6 +42,13 @@ const (
 	O_DIRECTORY = real.O_DIRECTORY
 	O_NOFOLLOW  = real.O_NOFOLLOW
 	O_PATH      = real.O_PATH
+	O_NONBLOCK  = real.O_NONBLOCK
+	O_NDELAY    = real.O_NDELAY
+	O_SYNC      = real.O_SYNC
+	O_DSYNC     = real.O_DSYNC
+	O_NOCTTY    = real.O_NOCTTY
+	O_NOATIME   = real.O_NOATIME
+	O_ACCMODE   = real.O_ACCMODE
 
 	ENOENT    = real.ENOENT
 	EEXIST    = real.EEXIST
